@@ -84,14 +84,18 @@ impl<T: RefCnt> HybridProtection<T> {
                 Self::from_inner(unsafe { Self::new(candidate, Some(debt)).into_inner() })
             }
             Err((unused_debt, replacement)) => {
+                // We got a (possibly) different pointer out. That one is already protected (it
+                // comes with its own reference count). Take the ownership of it first: giving up
+                // the candidate below may run the destructor of the pointee, which is user code
+                // and may panic ‒ the replacement would leak if it was still just a raw pointer.
+                let replacement = unsafe { Self::new(replacement as *mut _, None) };
                 // The debt is on the candidate we provided and it is unused, we so we just pay it
                 // back right away.
                 if !unused_debt.pay::<T>(candidate) {
                     unsafe { T::dec(candidate) };
                 }
-                // We got a (possibly) different pointer out. But that one is already protected and
-                // the slot is paid back.
-                unsafe { Self::new(replacement as *mut _, None) }
+                // The slot is paid back now.
+                replacement
             }
         }
     }
